@@ -56,6 +56,8 @@ func checkC15(r *Report) {
 	callOrderTyped(r, p)
 	callOrderExample(r)
 	declaredWinsRule(r, p, "C15.d/DECLARED-WINS")
+	nIC := interpolateCoverRule(r, p, "C15.e/INTERPOLATE-COVER", "Dependency")
+	r.floor("C15.e/INTERPOLATE-COVER", "interpolatable fields reachable from maven.Dependency", nIC, 9)
 }
 
 // declaredWinsRule: when ProcessDependencies injects dependency management
